@@ -32,6 +32,9 @@ func runC17(e *Env) {
 	if e.want("C17.R4") {
 		c17FreshParams(e)
 	}
+	if e.want("C17.R3") {
+		rejectOnlyByRegexp(e, "C17.R3")
+	}
 	if e.want("C17.R1") {
 		for _, f := range methodsOf(e, "C17.R1", "mux.Router") {
 			la := core.AnalyzeLocks(f)
